@@ -441,6 +441,11 @@ def run(ctx) -> None:
     from .common import include_rules
 
     include_rules(ctx, "c14", "C06.R6", only=("C14.R4",))
+    # ... and which context it lands in: a component context forwards to the REAL context, also
+    # when a component starts a nested component tree (C02.R4)
+    include_rules(ctx, "c02", "C06.R6", only=("C02.R4",))
+    # what the woken waiter receives is the factory's awaited product (C04.R1 / R3 / R5)
+    include_rules(ctx, "c04", "C06.R4", only=("C04.R1", "C04.R3", "C04.R5"))
 
 
 def _queue_rule(ctx, an: Anchors, sa: SignalAnchors, W: FuncInfo, wcfg: CFG, hnode: Node) -> None:
